@@ -252,10 +252,44 @@ var _ uuid.UUID
 //@ props C06 C03
 //@ assume
 //@ modifies * except type badgerWAL.cache; type badgerWAL.db; type badgerWAL.groupId
-//@ func (*storage/wal.badgerWAL).deleteEntriesUntilIndex
+// compaction scan (the real closure runs in place over the assumed Badger iterator, like the range scan of Entries): every key
+// the scan meets below the bound is queued for deletion, and the scan stops only when the iterator is exhausted or the bound is
+// reached (a scan that gives up early leaves entries in front of the snapshot marker: after a reopen the first index is wrong)
+//@ func (*storage/wal.badgerWAL).deleteKeys
 //@ props C06 C03
 //@ assume
+//@ modifies nothing
+//@ func (*storage/wal.badgerWAL).deleteEntriesUntilIndex
+//@ props C06 C03
+//@ safety UNCLAIMED
+//@ ghost seen int = 0
+//@ ghost lastValid int = 0
+//@ ghost lastIdx uint64 = 0
+//@ ghost queued int = 0 - 1
+//@ ghost bound uint64 = untilIdx
+//@ at call Iterator).Valid
+//@ set lastValid = ite($ret0, 1, 0)
+//@ end
+//@ at call badgerWAL).parseIndex
+//@ set lastIdx = $ret0
+//@ set seen = seen + 1
+//@ end
+//@ at call badgerWAL).deleteKeys
+//@ requires [C06 C03 deletes-what-the-scan-collected] $arg1 == batch && queued == 0 - 1
+//@ set queued = len($arg2)
+//@ end
+//@ requires [wal] this != nil && this.db != nil && this.cache != nil
+//@ ensures [C06 C03 scan-ends-at-the-bound-or-the-end] isnil(ret) ==> bound == old(untilIdx) && (lastValid == 0 || lastIdx >= bound)
+//@ ensures [C06 C03 every-key-below-the-bound-is-queued] isnil(ret) ==> queued == ite(lastValid == 1, seen - 1, seen)
 //@ modifies * except type badgerWAL.cache; type badgerWAL.db; type badgerWAL.groupId
+
+//@ func (*storage/wal.badgerWAL).deleteEntriesUntilIndex$1
+//@ inline
+//@ props C06 C03
+//@ loop 1
+//@ invariant [own-list] cap(*keys) == 0 || fresh(*keys)
+//@ invariant [C06 every-key-so-far-queued] len(*keys) == seen && seen >= 0 && (first == (seen == 0))
+//@ invariant [bound-fixed] *untilIdx == bound
 
 //@ func (*storage/wal.badgerWAL).CreateSnapshot
 //@ props C06 C03
